@@ -120,3 +120,6 @@ def run(P, R, tier):
     cache.k4_thresholds_setter(P, R)
     check_sigma_floor(P, R)
     check_weights(P, R)
+
+
+EXPLANATION += ' Also: (SIMPLEX.init) the default weights of a new machine are n entries of 1/n; G4 accepts only configuration scalars as count floors.'
